@@ -3,6 +3,7 @@ package props
 import (
 	"fmt"
 	"strings"
+	"sync"
 	"testing"
 
 	jd "github.com/josephburnett/jd/v2"
@@ -243,6 +244,55 @@ func checkC15Det(c DetCase, r *rec.Rec) error {
 			return rec.Violated("the same Diff / Render calls give different output on repetition %d\nfirst:\n%s\nnow:\n%s", i, first, s)
 		}
 	}
+	// The same calls from several goroutines at once, next to goroutines that
+	// render the opposite diff: a pure function gives each caller the output
+	// it gives when called alone.
+	compute := func(x, y string) string {
+		d := jdx.NodeText(x).Diff(jdx.NodeText(y), opts...)
+		s := d.Render()
+		if p, err := d.RenderPatch(); err == nil {
+			s += "\n--patch--\n" + p
+		}
+		if m, err := jdx.NodeText(x).Diff(jdx.NodeText(y), opts...).RenderMerge(); err == nil {
+			s += "\n--merge--\n" + m
+		}
+		return s + "\n--json--\n" + jdx.NodeText(x).Json() + jdx.NodeText(y).Yaml() + jdx.NodeText(x).Yaml()
+	}
+	var firstRev string
+	if msg, p := jdx.Guard(func() { firstRev = compute(c.B, c.A) }); p {
+		return rec.Violated("Diff / Render panicked on (b, a): %s", msg)
+	}
+	const workers = 8
+	results := make([]string, workers)
+	var wg sync.WaitGroup
+	for w := 0; w < workers; w++ {
+		wg.Add(1)
+		go func(w int) {
+			defer wg.Done()
+			defer func() {
+				if e := recover(); e != nil {
+					results[w] = fmt.Sprintf("PANIC: %v", e)
+				}
+			}()
+			for k := 0; k < 3; k++ {
+				if w%2 == 0 {
+					results[w] = compute(c.A, c.B)
+				} else {
+					results[w] = compute(c.B, c.A)
+				}
+			}
+		}(w)
+	}
+	wg.Wait()
+	for w, got := range results {
+		want := first
+		if w%2 == 1 {
+			want = firstRev
+		}
+		if got != want {
+			return rec.Violated("called from %d goroutines at once, Diff / Render give a different output than when called alone (goroutine %d)\nalone:\n%s\nconcurrently:\n%s", workers, w, want, got)
+		}
+	}
 	multiKey := strings.Count(c.Merge, ":") >= 2
 	if c.Merge != "" {
 		var firstM string
@@ -273,7 +323,41 @@ func checkC15Det(c DetCase, r *rec.Rec) error {
 // compares differently from a plain string ordering.
 var numberLikeKeys = []string{"01", "1e2", "10", "1", "2", "9", "1.5", "0x10", "a1", "a10", "a2", "A1", "-1", "+1", "1_0", "1a", "001"}
 
+// wideObjectPair: objects with more keys than any block size or small-map
+// threshold, a few values changed.
+func wideObjectPair(t *rapid.T) (val.V, val.V) {
+	n := gen.Int(t, "wideKeys", 64, 140)
+	a, b := map[string]val.V{}, map[string]val.V{}
+	for i := 0; i < n; i++ {
+		k := fmt.Sprintf("k%03d", (i*37)%1000)
+		a[k] = float64(i % 4)
+		b[k] = a[k]
+	}
+	ks := val.Keys(a)
+	for e := gen.Int(t, "wideEdits", 2, 6); e > 0; e-- {
+		k := ks[gen.Int(t, "wideAt", 0, len(ks)-1)]
+		switch gen.Int(t, "wideOp", 0, 2) {
+		case 0:
+			b[k] = "changed"
+		case 1:
+			delete(b, k)
+		default:
+			b[k+"x"] = 1.0
+		}
+	}
+	return a, b
+}
+
 func genC15Det(t *rapid.T) DetCase {
+	if gen.Chance(t, "wideObject", 8) {
+		a, b := wideObjectPair(t)
+		opts := gen.Pick(t, "wideOpts", []string{"list", "merge", "set"})
+		var av, bv val.V = a, b
+		if gen.Chance(t, "wideNested", 40) {
+			av, bv = []val.V{1.0, a}, []val.V{1.0, b}
+		}
+		return DetCase{A: val.JSON(av), B: val.JSON(bv), Opts: opts}
+	}
 	if gen.Chance(t, "numberLikeKeys", 30) {
 		mk := func() val.V {
 			o := map[string]val.V{}
@@ -341,6 +425,10 @@ func genC15Proc(t *rapid.T) ProcCase {
 		p.ArrayBias = 50
 	})
 	c := ProcCase{A: pc.A, B: pc.B, Bin: gen.Pick(t, "bin", []string{"jd-v2", "jd-top"}), Flags: optFlags(pc.Opts)}
+	if gen.Chance(t, "wideObject", 10) {
+		a, b := wideObjectPair(t)
+		c.A, c.B, c.Flags = val.JSON(a), val.JSON(b), nil
+	}
 	if gen.Chance(t, "mergeTranslate", 40) {
 		// merge2jd translation of a multi-key merge patch: order of hunks
 		m := genMergeDoc(t, gen.Object(t, gen.Profile{MaxObj: 6}, 0))
